@@ -137,9 +137,9 @@ Proof.
 Qed.
 
 (* ---------- accepted iff the enforced constraints hold ---------- *)
-Lemma assert_identifier_none n : assert_identifier n = None <-> name_ok false n = true.
+Lemma assert_identifier_none n : assert_identifier n = None <-> usable_name n = true.
 Proof.
-  unfold assert_identifier, name_ok.
+  unfold assert_identifier, usable_name.
   destruct (is_identifier n), (is_kw n); simpl; split; intro; auto; discriminate.
 Qed.
 Lemma assert_exists_none e p : assert_path_exists e p = None <-> p_exists e p = true.
@@ -194,10 +194,10 @@ Qed.
 Lemma client_asserts_iff e r :
   first_err (client_asserts e r) = None <->
   let '(bp, bn) := base_client_of e r in
-  p_exists e (r_queries_path r) && name_ok false (r_pkg_name r) && p_is_dir e (pkg_path_of e r)
-  && name_ok false (r_client_name r) && name_ok false (r_client_file r) && name_ok false bn
-  && p_is_file e bp && class_defined e bp bn && name_ok false (r_enums r) && name_ok false (r_inputs r)
-  && forallb (p_is_file e) (r_files r) = true.
+  p_exists e (r_queries_path r) && usable_name (r_pkg_name r) && p_is_dir e (pkg_path_of e r)
+  && usable_name (r_client_name r) && usable_name (r_client_file r) && usable_name bn
+  && p_is_file e bp && class_defined e bp bn && usable_name (r_enums r) && usable_name (r_inputs r)
+  && usable_name (r_fragments r) && forallb (p_is_file e) (r_files r) = true.
 Proof.
   unfold client_asserts. destruct (base_client_of e r) as [bp bn].
   rewrite first_err_none. cbn [app].
@@ -210,10 +210,10 @@ Proof.
 Qed.
 
 Theorem client_accept_iff_enforced e r sc :
-  (exists c, client_post_init e r sc = Ok c) <-> all_hold (client_constraints false e r) = true.
+  (exists c, client_post_init e r sc = Ok c) <-> all_hold (client_constraints e r) = true.
 Proof.
   pose proof (client_post_init_first_err e r sc) as H.
-  assert (first_err (client_checks e r) = None <-> all_hold (client_constraints false e r) = true) as HI.
+  assert (first_err (client_checks e r) = None <-> all_hold (client_constraints e r) = true) as HI.
   { unfold client_checks, client_constraints, all_hold.
     pose proof (client_asserts_iff e r) as HA. destruct (base_client_of e r) as [bp bn].
     rewrite !first_err_app, !forallb_app.
@@ -239,7 +239,7 @@ Qed.
 Lemma schema_asserts_iff r :
   first_err (schema_asserts r) = None <->
   (match assert_schema_target_filename (gr_target r) with None => true | Some _ => false end)
-  && name_ok false (gr_schema_var r) && name_ok false (gr_type_map_var r) = true.
+  && usable_name (gr_schema_var r) && usable_name (gr_type_map_var r) = true.
 Proof.
   unfold schema_asserts. rewrite first_err_none. repeat rewrite Forall_cons_iff.
   rewrite !assert_identifier_none, !andb_true_iff.
@@ -248,10 +248,10 @@ Proof.
 Qed.
 
 Theorem schema_accept_iff_enforced e r :
-  (exists g, schema_post_init e r = Ok g) <-> all_hold (schema_constraints false e r) = true.
+  (exists g, schema_post_init e r = Ok g) <-> all_hold (schema_constraints e r) = true.
 Proof.
   pose proof (schema_post_init_first_err e r) as H.
-  assert (first_err (schema_checks e r) = None <-> all_hold (schema_constraints false e r) = true) as HI.
+  assert (first_err (schema_checks e r) = None <-> all_hold (schema_constraints e r) = true) as HI.
   { unfold schema_checks, schema_constraints, all_hold. rewrite first_err_app, forallb_app.
     pose proof (base_checks_iff e (gr_base r)) as HBI. unfold all_hold in HBI.
     destruct (first_err (base_checks e (gr_base r))).
@@ -262,25 +262,6 @@ Proof.
   destruct (first_err (schema_checks e r)).
   - rewrite H. split; [intros [c Hc]; discriminate|]. intro Hc. apply HI in Hc. discriminate.
   - split; intro; [apply HI; reflexivity | exact H].
-Qed.
-
-(* ---------- documented constraints coincide with the enforced ones outside the finding class ---------- *)
-Lemma name_ok_strict_eq s : is_kw s = false -> name_ok true s = name_ok false s.
-Proof. unfold name_ok, usable_name. intros ->. destruct (is_identifier s); reflexivity. Qed.
-
-Theorem client_constraints_guarded e r : g_c17_client e r = true ->
-  client_constraints true e r = client_constraints false e r.
-Proof.
-  unfold g_c17_client, client_constraints. destruct (base_client_of e r) as [bp bn].
-  rewrite !andb_true_iff, !negb_true_iff. intros [[[[[[H1 H2] H3] H4] H5] H6] H7].
-  rewrite !name_ok_strict_eq by assumption. rewrite H7. reflexivity.
-Qed.
-
-Theorem schema_constraints_guarded e r : g_c17_schema r = true ->
-  schema_constraints true e r = schema_constraints false e r.
-Proof.
-  unfold g_c17_schema, schema_constraints. rewrite !andb_true_iff, !negb_true_iff. intros [H1 H2].
-  rewrite !name_ok_strict_eq by assumption. reflexivity.
 Qed.
 
 (* ---------- every settings error is an ariadne-codegen configuration exception ---------- *)
@@ -298,7 +279,7 @@ Proof.
 Qed.
 
 Lemma assert_identifier_cls n x : assert_identifier n = Some x -> config_exn (x_cls x) = true.
-Proof. unfold assert_identifier. destruct (_ && _); intro H; inversion H; reflexivity. Qed.
+Proof. unfold assert_identifier. destruct (_ || _); intro H; inversion H; reflexivity. Qed.
 Lemma assert_file_cls e p x : assert_path_is_valid_file e p = Some x -> config_exn (x_cls x) = true.
 Proof. unfold assert_path_is_valid_file. destruct (p_is_file _ _); intro H; inversion H; reflexivity. Qed.
 
@@ -461,7 +442,7 @@ Qed.
 
 Theorem get_client_settings_accept_iff e cfg src kv r sc :
   get_section cfg = Ok (src, kv) -> section_scalars kv = ScOk sc -> decode_client kv = Some r ->
-  ((exists c, get_client_settings e cfg = Ok c) <-> all_hold (client_constraints false e r) = true).
+  ((exists c, get_client_settings e cfg = Ok c) <-> all_hold (client_constraints e r) = true).
 Proof.
   intros H1 H2 H3. unfold get_client_settings, client_of_section. rewrite H1, H2, H3.
   apply client_accept_iff_enforced.
@@ -469,27 +450,10 @@ Qed.
 
 Theorem get_schema_settings_accept_iff e cfg src kv r :
   get_section cfg = Ok (src, kv) -> decode_schema kv = Some r ->
-  ((exists g, get_graphql_schema_settings e cfg = Ok g) <-> all_hold (schema_constraints false e r) = true).
+  ((exists g, get_graphql_schema_settings e cfg = Ok g) <-> all_hold (schema_constraints e r) = true).
 Proof.
   intros H1 H2. unfold get_graphql_schema_settings, schema_of_section. rewrite H1, H2.
   apply schema_accept_iff_enforced.
-Qed.
-
-Theorem get_client_settings_accept_iff_documented e cfg src kv r sc :
-  get_section cfg = Ok (src, kv) -> section_scalars kv = ScOk sc -> decode_client kv = Some r ->
-  g_c17_client e r = true ->
-  ((exists c, get_client_settings e cfg = Ok c) <-> all_hold (client_constraints true e r) = true).
-Proof.
-  intros H1 H2 H3 G. rewrite (client_constraints_guarded e r G).
-  eapply get_client_settings_accept_iff; eauto.
-Qed.
-
-Theorem get_schema_settings_accept_iff_documented e cfg src kv r :
-  get_section cfg = Ok (src, kv) -> decode_schema kv = Some r -> g_c17_schema r = true ->
-  ((exists g, get_graphql_schema_settings e cfg = Ok g) <-> all_hold (schema_constraints true e r) = true).
-Proof.
-  intros H1 H2 G. rewrite (schema_constraints_guarded e r G).
-  eapply get_schema_settings_accept_iff; eauto.
 Qed.
 
 (* a scalar without `type` is refused before anything else is looked at *)
